@@ -48,7 +48,8 @@ MANIFEST = dict(
     'add_column stores the value of the formula on each row and changes nothing else (addcol_values); scale_column multiplies exactly one column (scale_one_column); '
     'numpy.array_split sizes and concatenation (array_split_concat); k-fold split for EVERY shuffle permutation: k folds, validation parts contain each row once, '
     'estimation = complement, parts pairwise disjoint (folds_partition); grouped split: same, and rows of one group are never separated (groups_unsplit); '
-    'bootstrap rows exist (bootstrap_subset); extract_rows positional / IndexError (extract_positional); count (count_def); flattening groups every row once, in table '
+    'bootstrap rows exist (bootstrap_subset); extract_rows positional / IndexError (extract_positional); count (count_def; count_exact: only rows holding the value, absent value 0, '
+    'counts of the distinct values add up to the number of rows; counts_def); flattening groups every row once, in table '
     'order per individual (flatten_roundtrip); invariant over ARBITRARY operation sequences by induction over op lists (history_inv_partial, fresh_inv; guard witnessed by '
     'scale_panel_column_breaks_map); meaning of the relations evaluated on real outputs (fold_relation_sound, groups_relation_sound, bootstrap_relation_sound). Tie: per-step correspondence with the real Database object on '
     'generated tables x operation sequences, relations evaluated by the driver on real random outputs, Python oracle from the property statement on every step.',
@@ -62,17 +63,19 @@ MANIFEST = dict(
 
 TRUSTED = [
     'pandas / numpy primitives used by Database (drop, iloc, sort_values, sample, array_split, concat, groupby, isin)',
-    'the C++ engine computes the formula values (validated on every case against the Lean model and a Python evaluator; dyadic data make the arithmetic exact)',
+    'the C++ engine computes the formula values (validated on every case against the Lean model and a Python evaluator; dyadic data make the arithmetic exact; on the columns of other magnitudes every single +, -, * is the correctly rounded IEEE operation on all sides)',
     'numbers compare with == as equality (no NaN: the Database constructor refuses NaN) — hypothesis EqOK of the theorems',
 ]
 ASSUMPTIONS = [
+    'values are finite normal doubles (|v| in 1e-20 .. 1e60 or 0): +, -, * and comparisons are IEEE operations in numpy, the C++ engine, Python and Lean Float alike (no denormal arithmetic)',
     'row labels of generated tables are integers; duplicates only in the stream dedicated to the known finding',
     'formulas are valid (known columns; + - * neg, comparisons, and/or) so that the engine never raises',
 ]
 RULE = (
-    'tables of 1-14 rows x 2-5 columns (labels with gaps / shuffled, id column contiguous or not, int and float columns, values k/8) x sequences of 1-8 operations among '
-    'remove, add_column, define_variable, scale_column, panel, split(k, groups), sample_with_replacement, sample_individual_map_with_replacement, extract_rows, count, '
-    'generate_flat_panel_dataframe, values_from_database, count_number_of_groups; non-trivial = sequence with a state-changing operation after which the label index has gaps or the table is a panel'
+    'tables of 1-14 rows x 2-5 columns (labels with gaps / shuffled, id column contiguous or not, int and float columns, values k/8; in 30% of the tables and in a dedicated stream '
+    'columns of other magnitudes: 6-16 digit identifiers one unit apart, clusters of nearly equal floats — adjacent doubles, 1e-12..1e-6 apart —, also as id column) x sequences of 1-8 operations among '
+    'remove, add_column, define_variable, scale_column, panel, split(k, groups), sample_with_replacement, sample_individual_map_with_replacement, extract_rows, count (fixed value; '
+    'every value the column holds at that moment + the values next to them), generate_flat_panel_dataframe, values_from_database, count_number_of_groups; constants of the formulas also taken from the table and next to its values; non-trivial = sequence with a state-changing operation after which the label index has gaps or the table is a panel'
 )
 
 W_DUP = 'Database.remove: rows dropped by label (duplicate index labels)'
@@ -139,26 +142,30 @@ def to_expr(fm):
     }[k]()
 
 
-def gen_num(rng):
+def gen_num(rng, consts=None):
+    """a constant: one of the fixed small values or (half of the time when the table offers some) a value of the table or a
+    value NEXT to one (adjacent double, +1e-9, x(1+1e-6) ...): comparisons must tell them apart"""
+    if consts and rng.random() < 0.5:
+        return ['num', f2b(rng.choice(consts))]
     return ['num', f2b(rng.choice([0.0, 1.0, 2.0, -1.0, 0.5, 3.0, -2.5, 0.125, 4.0]))]
 
 
-def gen_arith(rng, cols, depth):
+def gen_arith(rng, cols, depth, consts=None):
     r = rng.random()
     if depth <= 0 or r < 0.35:
-        return ['var', rng.choice(cols)] if rng.random() < 0.75 else gen_num(rng)
+        return ['var', rng.choice(cols)] if rng.random() < 0.75 else gen_num(rng, consts)
     if r < 0.45:
-        return ['neg', gen_arith(rng, cols, depth - 1)]
-    return [rng.choice(['add', 'sub', 'mul', 'add', 'sub']), gen_arith(rng, cols, depth - 1), gen_arith(rng, cols, depth - 1)]
+        return ['neg', gen_arith(rng, cols, depth - 1, consts)]
+    return [rng.choice(['add', 'sub', 'mul', 'add', 'sub']), gen_arith(rng, cols, depth - 1, consts), gen_arith(rng, cols, depth - 1, consts)]
 
 
-def gen_cond(rng, cols, depth=2):
+def gen_cond(rng, cols, depth=2, consts=None):
     r = rng.random()
     if depth > 0 and r < 0.2:
-        return [rng.choice(['and', 'or']), gen_cond(rng, cols, depth - 1), gen_cond(rng, cols, depth - 1)]
+        return [rng.choice(['and', 'or']), gen_cond(rng, cols, depth - 1, consts), gen_cond(rng, cols, depth - 1, consts)]
     if r < 0.5:
-        # not a 0/1 indicator: a code column, a difference of columns, a scaled or shifted column (values 2, -3, 0.5 ...):
-        # every row with a NON-ZERO value is removed and counted once
+        # not a 0/1 indicator: a code column, a difference of columns, a scaled or shifted column (values 2, -3, 0.5, 1e-9 ...):
+        # every row with a NON-ZERO value, however small, is removed and counted once
         k = rng.random()
         if k < 0.3:
             return ['var', rng.choice(cols)]
@@ -167,22 +174,84 @@ def gen_cond(rng, cols, depth=2):
         if k < 0.75:
             return ['mul', ['var', rng.choice(cols)], ['num', f2b(rng.choice([2.0, -3.0, 0.5, -0.125]))]]
         if k < 0.9:
-            return ['sub', ['var', rng.choice(cols)], gen_num(rng)]
-        return gen_arith(rng, cols, 2)
-    return [rng.choice(['eq', 'ne', 'lt', 'le', 'gt', 'ge']), gen_arith(rng, cols, 1), gen_arith(rng, cols, 1) if rng.random() < 0.5 else gen_num(rng)]
+            return ['sub', ['var', rng.choice(cols)], gen_num(rng, consts)]
+        return gen_arith(rng, cols, 2, consts)
+    return [rng.choice(['eq', 'ne', 'lt', 'le', 'gt', 'ge']), gen_arith(rng, cols, 1, consts), gen_arith(rng, cols, 1, consts) if rng.random() < 0.5 else gen_num(rng, consts)]
+
+
+# ============================================================================ values of different magnitudes
+
+# identifiers / amounts whose neighbours differ by ONE unit (relative distance 1e-5 .. 1e-15) — all exact doubles and exact int64
+BIG_BASES = [100000.0, 4210017.0, 99999990.0, 123456789.0, float(2**40), 1.0e15]
+# centres of clusters of nearly equal floats
+NEAR_BASES = [0.0, 2.5, 1.0, -3.75, 7.25, 100000.5, -1.0e6, 1.0e-9, 0.1]
+
+
+def neighbours(v):
+    """values next to v that are NOT v: adjacent doubles, absolute steps 1e-12 / 1e-9, relative steps 1e-9 / 1e-6, one unit, the
+    truncated / rounded value, the opposite.  (Only compared, never used in arithmetic: denormals next to 0 are harmless.)"""
+    v = float(v)
+    out = [math.nextafter(v, math.inf), math.nextafter(v, -math.inf), v + 1e-12, v - 1e-12, v + 1e-9, v - 1e-9,
+           v * (1 + 1e-9), v * (1 - 1e-9), v * (1 + 1e-6), v * (1 - 1e-6), v + 1.0, v - 1.0, v + 0.5, -v,
+           float(math.trunc(v)), float(round(v)), float(round(v, 6))]
+    seen, res = {f2b(v)}, []
+    for w in out:
+        if math.isfinite(w) and f2b(w) not in seen and w != v:
+            seen.add(f2b(w))
+            res.append(w)
+    return res
+
+
+def cluster(rng, base):
+    """a few nearly equal normal doubles around base (no denormals: the values also go through arithmetic)"""
+    if base == 0.0:
+        c = [0.0, 1e-9, -1e-9, 1e-12, 1e-20]
+    else:
+        c = [base, math.nextafter(base, math.inf), math.nextafter(base, -math.inf), base + 1e-9 * max(1.0, abs(base)) * rng.choice([1, 1e-3]),
+             base * (1 + 1e-6), base * (1 - 1e-9), base + 1e-12]
+    c = list(dict.fromkeys(c))
+    return rng.sample(c, rng.randint(2, min(4, len(c))))
+
+
+def table_consts(table, rng, k=8):
+    """constants for formulas / count values taken from the table: values that occur and values next to them"""
+    vals = sorted({v for r in table['rows'] for v in r})
+    if not vals:
+        return []
+    pick = rng.sample(vals, min(k, len(vals)))
+    out = list(pick)
+    for v in pick[:4]:
+        nb = neighbours(v)
+        out += rng.sample(nb, min(2, len(nb)))
+    return [v for v in out if v == 0.0 or abs(v) > 1e-300]
 
 
 # ============================================================================ tables and sequences
 
 
-def gen_table(rng, panelable=None, dup=False):
+def gen_table(rng, panelable=None, dup=False, wide=None):
+    """wide: columns of different magnitudes — identifiers / amounts of 6-16 digits whose neighbours differ by one unit, clusters
+    of nearly equal floats (adjacent doubles, 1e-12 .. 1e-6 apart), next to the small dyadic / integer columns; the id column too"""
     n = rng.choice([1, 2, 3, 4, 5, 6, 7, 8, 9, 10, 12, 14])
     ncol = rng.randint(2, 5)
     cols = ['id'] + rng.sample([c for c in COLS if c != 'id'], ncol - 1)
     rng.shuffle(cols)
+    if wide is None:
+        wide = rng.random() < 0.3
     # id column: a few individuals
     nid = rng.randint(1, max(1, min(5, n)))
-    idvals = rng.sample([1, 2, 3, 5, 8, 13, 4], nid)
+    id_int = True
+    idk = rng.random() if wide else 1.0
+    if idk < 0.45:
+        base = rng.choice(BIG_BASES)
+        idvals = [base + o for o in rng.sample(range(0, 7), nid)]   # neighbours one unit apart, not ascending
+    elif idk < 0.7:
+        pool = list(dict.fromkeys(cluster(rng, rng.choice(NEAR_BASES)) + cluster(rng, rng.choice(NEAR_BASES)) + [3.0, 8.0]))
+        idvals = rng.sample(pool, min(nid, len(pool)))
+        nid = len(idvals)
+        id_int = False
+    else:
+        idvals = rng.sample([1, 2, 3, 5, 8, 13, 4], nid)
     if panelable is None:
         panelable = rng.random() < 0.7
     if panelable:
@@ -193,17 +262,37 @@ def gen_table(rng, panelable=None, dup=False):
             prev = c
     else:
         ids = [rng.choice(idvals) for _ in range(n)]
-    int_cols = [c for c in cols if c == 'id' or rng.random() < 0.25]
+    # kind of every other column
+    kinds = {}
+    for c in cols:
+        if c == 'id':
+            continue
+        k = rng.random()
+        if not wide:
+            kinds[c] = ('int',) if k < 0.25 else ('dyadic',)
+        elif k < 0.15:
+            kinds[c] = ('int',)
+        elif k < 0.4:
+            kinds[c] = ('dyadic',)
+        elif k < 0.7:
+            kinds[c] = ('big', rng.choice(BIG_BASES), rng.choice([2, 3, 5]), rng.random() < 0.5)
+        else:
+            kinds[c] = ('near', cluster(rng, rng.choice(NEAR_BASES)) + (cluster(rng, rng.choice(NEAR_BASES)) if rng.random() < 0.4 else []))
+    int_cols = [c for c in cols if (c == 'id' and id_int) or (c != 'id' and (kinds[c][0] == 'int' or (kinds[c][0] == 'big' and kinds[c][3])))]
     rows = []
     for i in range(n):
         row = []
         for c in cols:
             if c == 'id':
                 row.append(float(ids[i]))
-            elif c in int_cols:
+            elif kinds[c][0] == 'int':
                 row.append(float(rng.randint(-4, 6)))
-            else:
+            elif kinds[c][0] == 'dyadic':
                 row.append(rng.randint(-40, 40) / 8.0)
+            elif kinds[c][0] == 'big':
+                row.append(kinds[c][1] + float(rng.randint(0, kinds[c][2])))
+            else:
+                row.append(float(rng.choice(kinds[c][1])))
         rows.append(row)
     kind = rng.random()
     if dup:
@@ -214,7 +303,7 @@ def gen_table(rng, panelable=None, dup=False):
         index = sorted(rng.sample(range(3 * n + 2), n))
     else:
         index = rng.sample(range(-3, 3 * n + 2), n)
-    return {'cols': cols, 'index': index, 'rows': rows, 'int_cols': int_cols, 'panelable': bool(panelable)}
+    return {'cols': cols, 'index': index, 'rows': rows, 'int_cols': int_cols, 'panelable': bool(panelable), 'wide': bool(wide)}
 
 
 def gen_ops(rng, table, allow_known=False):
@@ -223,19 +312,21 @@ def gen_ops(rng, table, allow_known=False):
     ops = []
     panel = False
     new_names = ['n1', 'b2', 'b10', 'new col', 'zz']
+    consts = table_consts(table, rng)
+    scales = [0.5, 2.0, -1.0, 0.25, 0.0, 8.0, 1.0] + ([1e-3, 1e6, 1.0 + 2.0**-20] if table.get('wide') else [])
     for _ in range(n_ops):
         r = rng.random()
         data_cols = [c for c in cols]
         if r < 0.17 and (allow_known or not panel):
-            ops.append(['remove', gen_cond(rng, data_cols)])
+            ops.append(['remove', gen_cond(rng, data_cols, 2, consts)])
         elif r < 0.31:
             name = rng.choice([x for x in new_names if x not in cols] or ['q' + str(len(cols))])
-            ops.append([rng.choice(['add_column', 'define_variable']), name, gen_arith(rng, data_cols, 2) if rng.random() < 0.7 else gen_cond(rng, data_cols, 1)])
+            ops.append([rng.choice(['add_column', 'define_variable']), name, gen_arith(rng, data_cols, 2, consts) if rng.random() < 0.7 else gen_cond(rng, data_cols, 1, consts)])
             cols.append(name)
         elif r < 0.34:
-            ops.append(['add_column', rng.choice(cols), gen_arith(rng, data_cols, 1)])  # existing name: ValueError
+            ops.append(['add_column', rng.choice(cols), gen_arith(rng, data_cols, 1, consts)])  # existing name: ValueError
         elif r < 0.45:
-            ops.append(['scale', rng.choice([c for c in cols if c != 'id'] or cols), f2b(rng.choice([0.5, 2.0, -1.0, 0.25, 0.0, 8.0, 1.0]))])
+            ops.append(['scale', rng.choice([c for c in cols if c != 'id'] or cols), f2b(rng.choice(scales))])
         elif r < 0.55:
             if not (allow_known or table.get('panelable')):
                 continue   # a refused panel() is the shape of a listed finding: dedicated stream only
@@ -247,18 +338,43 @@ def gen_ops(rng, table, allow_known=False):
             ops.append(['sample', rng.choice([None, None, 1, 3, 20])])
         elif r < 0.78:
             ops.append(['sample_map', rng.choice([None, 2, 7])])
-        elif r < 0.85:
+        elif r < 0.83:
             k = rng.randint(0, 4)
             ops.append(['extract', [rng.randint(-1 if rng.random() < 0.1 else 0, 13) for _ in range(k)]])
+        elif r < 0.87:
+            # a fixed value: small constants, values of the table as it was at the start, values next to them
+            ops.append(['count', rng.choice(cols), gen_num(rng, consts)[1]])
         elif r < 0.90:
-            ops.append(['count', rng.choice(cols), f2b(rng.choice([0.0, 1.0, 2.0, -0.5, 3.0]))])
+            # every value the column holds WHEN THE CALL IS MADE and the values next to them (resolved on the current state)
+            ops.append(['counts', rng.choice(cols), rng.randint(0, 10**6)])
         elif r < 0.95:
             ops.append(['flatten', rng.choice([None, None, ['id']])])
         elif r < 0.98:
-            ops.append(['values', gen_arith(rng, data_cols, 2)])
+            ops.append(['values', gen_arith(rng, data_cols, 2, consts)])
         else:
             ops.append(['groups', rng.choice(cols)])
     return ops
+
+
+def count_values(col_bits, salt):
+    """the values asked by a `counts` step: every distinct value of the column (first 10), the neighbours of some of them
+    (deterministic choice from `salt`), values the column does not hold"""
+    import random
+
+    r = random.Random(salt)
+    present = list(dict.fromkeys(col_bits))
+    vals = [b2f(b) for b in present[:10]]
+    out = list(vals)
+    for v in (r.sample(vals, min(4, len(vals))) if vals else []):
+        nb = neighbours(v)
+        out += r.sample(nb, min(6, len(nb)))
+    out += [0.0, 1.0, -0.5, (max(vals) + 1.0) if vals else 2.0, (min(vals) - 1.0) if vals else -2.0]
+    seen, res = set(), []
+    for w in out:
+        if f2b(w) not in seen:
+            seen.add(f2b(w))
+            res.append(w)
+    return res
 
 
 def gen_case(rng, allow_known=False):
@@ -510,7 +626,7 @@ def run_ops_case(ctx, res, case):
                 badd(ctx, res, req, cb, info)
                 continue
             # ------------------------------------------------------------------ read-only operations
-            if (op[0] in ('count', 'groups') and op[1] not in before['cols']) or (op[0] == 'values' and not vars_ok(op[1])):
+            if (op[0] in ('count', 'counts', 'groups') and op[1] not in before['cols']) or (op[0] == 'values' and not vars_ok(op[1])):
                 res.tally('skipped: column absent')
                 continue
             if op[0] == 'split':
@@ -615,6 +731,33 @@ def run_ops_case(ctx, res, case):
                     res.violate(f'step {step} count({op[1]}, {b2f(op[2])}) = {o[1]}', info, o[1], exp, where='Database.count')
                 badd(ctx, res, {'op': 'count', 'db': for_model(before), 'col': op[1], 'value': op[2]},
                               lambda a, o=o, info=info: None if a.get('ok') == o[1] else res.diverge(f'step {info["step"]} count', info, a, o[1]), info)
+            elif op[0] == 'counts':
+                # count returns the number of rows that HOLD the value: asked for every value of the column and for values next to
+                # them (adjacent doubles, 1e-12 .. 1e-6 away, one unit away, truncated / rounded), which it must not count
+                j = before['cols'].index(op[1])
+                colbits = [r[1][j] for r in before['rows']]
+                colvals = [b2f(b) for b in colbits]
+                asked = count_values(colbits, op[2])
+                got = []
+                for w in asked:
+                    o = outcome(lambda w=w: int(d.count(op[1], w)))
+                    exp = sum(1 for v in colvals if v == w)
+                    got.append(o[1])
+                    if o != ('ok', exp):
+                        near = sorted({v for v in colvals if v != w}, key=lambda v: abs(v - w))[:2]
+                        res.violate(f'step {step} count({op[1]}, {w!r}) = {o[1]}: the column holds that value on {exp} of its {len(colvals)} rows'
+                                    f' (nearest other values: {near})', dict(info, value=w), o[1], exp, where='Database.count')
+                        break
+                else:
+                    distinct = [b2f(b) for b in dict.fromkeys(colbits)]
+                    if len(distinct) <= 10:
+                        tot = sum(g for w, g in zip(asked, got) if any(w == v for v in distinct))
+                        if tot != len(colvals):   # implied by the clause above; kept as the statement of C13.count_exact
+                            res.violate(f'step {step} the counts of the distinct values of {op[1]} add up to {tot}, the table has {len(colvals)} rows', info, tot, len(colvals), where='Database.count')
+                    badd(ctx, res, {'op': 'counts', 'db': for_model(before), 'col': op[1], 'values': [_f2b(w) for w in asked]},
+                         lambda a, got=got, info=info, n=len(colvals): None if (a.get('ok') == got and a.get('total') == n)
+                         else res.diverge(f'step {info["step"]} counts', info, a, got), info)
+                res.tally('count values asked: %d' % (10 * (len(asked) // 10)))
             elif op[0] == 'flatten':
                 o = outcome(lambda: d.generate_flat_panel_dataframe(identical_columns=op[1]))
                 if before['panel'] is None:
@@ -776,6 +919,16 @@ CORPUS += [
 ]
 
 
+CORPUS += [
+    # identifiers one unit apart, amounts 1e-9 apart, adjacent doubles: counted one by one, before and after a removal (gaps in the index)
+    {'kind': 'ops', 'np_seed': 10, 'table': {'cols': ['hh', 'amount', 'id', 'u'], 'index': [0, 1, 2, 3, 4, 5], 'int_cols': ['hh', 'id'],
+                                              'rows': [[73001205.0, 0.0, 1, 1.0], [73001206.0, 1e-9, 1, 1.0000000000000002], [73001206.0, 4.75, 1, 1.0],
+                                                       [73001207.0, 4.750000001, 2, 0.9999999999999999], [73001209.0, 0.0, 2, 1.0], [73001205.0, 4.75, 2, 1.0]]},
+     'ops': [['counts', 'hh', 1], ['counts', 'amount', 2], ['counts', 'u', 3], ['remove', ['sub', ['var', 'u'], ['num', F1]]], ['counts', 'hh', 4],
+             ['counts', 'amount', 5], ['count', 'hh', f2b(73001208.0)], ['panel', 'id'], ['flatten', None], ['counts', 'amount', 6]]},
+]
+
+
 def is_dup_case(case):
     idx = ((case or {}).get('table') or {}).get('index') or []
     return len(set(idx)) != len(idx)
@@ -861,6 +1014,14 @@ def check(ctx) -> Result:
     for _ in range(ctx.n(30, 300)):
         t = gen_table(rng, panelable=False)
         run_case(ctx, res, {'kind': 'ops', 'table': t, 'ops': [['panel', 'id']] + gen_ops(rng, t)[:3], 'np_seed': rng.randint(0, 2**31 - 1)})
+    # values of different magnitudes: count / remove / panel / flatten must tell nearly equal values apart, also after earlier operations
+    for _ in range(ctx.n(150, 1500)):
+        t = gen_table(rng, wide=True)
+        ops = gen_ops(rng, t)[: rng.randint(0, 3)] + [['counts', c, rng.randint(0, 10**6)] for c in rng.sample(t['cols'], min(3, len(t['cols'])))]
+        if t['panelable'] and rng.random() < 0.5:
+            ops += [['panel', 'id'], ['flatten', None], ['split', 2, None], ['groups', 'id']]
+        run_case(ctx, res, {'kind': 'ops', 'table': t, 'ops': ops, 'np_seed': rng.randint(0, 2**31 - 1)})
+        res.tally('stream: magnitudes')
     check_split_model(ctx, res, rng, ctx.n(200, 2000))
     check_array_split(ctx, res)
     ctx.batch.flush()
